@@ -282,6 +282,32 @@ pub fn dispatch(f: &[&str]) -> Result<String, String> {
                 },
             }
         }
+        // FMTZ <fmt> Z... : OutputFormatter::format_output without template
+        "FMTZ" => {
+            let mut c = crate::zenc::Cur { f, i: 2 };
+            match crate::zenc::zerv(&mut c)? {
+                Err(_) => Ok("INVALID".into()),
+                Ok(z) => match zerv::cli::utils::OutputFormatter::format_output(&z, f[1], None, &None) {
+                    Ok(o) => Ok(format!("OK {}", hex(&o))),
+                    Err(_) => Ok("ERR".into()),
+                },
+            }
+        }
+        // TPL <template> Z... [T atoms (ignored here)] : OutputFormatter::format_output with an output template
+        "TPL" => {
+            let t = unhex(f[1])?;
+            let mut c = crate::zenc::Cur { f, i: 2 };
+            match crate::zenc::zerv(&mut c)? {
+                Err(_) => Ok("INVALID".into()),
+                Ok(z) => {
+                    let tpl = Some(zerv::cli::utils::template::Template::<String>::new(t));
+                    match zerv::cli::utils::OutputFormatter::format_output(&z, "semver", None, &tpl) {
+                        Ok(o) => Ok(format!("OK {}", hex(&o))),
+                        Err(_) => Ok("ERR".into()),
+                    }
+                }
+            }
+        }
         // RONV Z... : does a document carrying this (possibly invalid) schema get through parsing + Zerv::new ? OK | REJECT
         "RONV" => {
             let mut c = crate::zenc::Cur { f, i: 1 };
